@@ -1,9 +1,12 @@
 import WuffsVerif.Common.Line
 import WuffsVerif.Model.Flow
+import WuffsVerif.Model.FlowWf
 import WuffsVerif.Gen.C02_AxiomDefs
 /-! Line-protocol part of the C02 driver for the FACTS half (Model/Flow.lean).
 
   case flow <stmt>   -> accept <npoints> | reject      (checkS [] [] on a function body)
+                        `ill-formed` instead, when the body fails `wfProg` (Model/FlowWf.lean): the
+                        hypotheses of the facts theorems do not hold for it
   pt <k>             -> <m> <fact>*m | unreachable      (the situation at point k of the current program)
 
   <stmt> = skip | seq <stmt> <stmt> | assign <e> <e> | opassign <op> <e> <e>
@@ -226,6 +229,7 @@ def step (st : State) (l : List String) : Option (State × String) :=
   | "case" :: "flow" :: rest =>
     match parseStmt rest with
     | some (s, []) =>
+      if !wfProg s then some ({ pts := #[] }, "ill-formed") else
       match checkS [] [] s with
       | none => some ({ pts := #[] }, "reject")
       | some _ =>
